@@ -9,6 +9,58 @@ import (
 	"github.com/woodsbury/decimal128"
 )
 
+// isJSONNumber reports whether s matches the JSON number grammar.
+func isJSONNumber(s string) bool {
+	i := 0
+	if i < len(s) && s[i] == '-' {
+		i++
+	}
+
+	if i == len(s) {
+		return false
+	}
+
+	if s[i] == '0' {
+		i++
+	} else if s[i] >= '1' && s[i] <= '9' {
+		for i < len(s) && s[i] >= '0' && s[i] <= '9' {
+			i++
+		}
+	} else {
+		return false
+	}
+
+	if i < len(s) && s[i] == '.' {
+		i++
+		n := i
+		for i < len(s) && s[i] >= '0' && s[i] <= '9' {
+			i++
+		}
+
+		if i == n {
+			return false
+		}
+	}
+
+	if i < len(s) && (s[i] == 'e' || s[i] == 'E') {
+		i++
+		if i < len(s) && (s[i] == '+' || s[i] == '-') {
+			i++
+		}
+
+		n := i
+		for i < len(s) && s[i] >= '0' && s[i] <= '9' {
+			i++
+		}
+
+		if i == n {
+			return false
+		}
+	}
+
+	return i == len(s)
+}
+
 func length(v any) (any, error) {
 	switch v := v.(type) {
 	case []any:
@@ -92,6 +144,10 @@ func toNumber(v any) any {
 		uint:
 		return v
 	case string:
+		if !isJSONNumber(v) {
+			return nil
+		}
+
 		var d decimal128.Decimal
 		if err := d.UnmarshalJSON([]byte(v)); err != nil {
 			return nil
